@@ -39,6 +39,22 @@ pub fn tokens_to_line(tokens: &Tokens) -> String {
     result
 }
 
+/// Trim a command segment, but keep a trailing blank that is escaped
+/// with a backslash (e.g. `ls foo\ `).
+fn trim_cmd(token: &str) -> String {
+    let head = token.trim_start();
+    let trimmed = head.trim_end();
+    if trimmed.len() < head.len() {
+        let n_backslash = trimmed.chars().rev().take_while(|c| *c == '\\').count();
+        if n_backslash % 2 == 1 {
+            if let Some(c) = head[trimmed.len()..].chars().next() {
+                return format!("{}{}", trimmed, c);
+            }
+        }
+    }
+    trimmed.to_string()
+}
+
 /// Parse command line for multiple commands. Examples:
 /// >>> line_to_cmds("echo foo && echo bar; echo end");
 /// vec!["echo foo", "&&", "echo bar", ";", "echo end"]
@@ -113,7 +129,7 @@ pub fn line_to_cmds(line: &str) -> Vec<String> {
                 sep.push(c);
                 continue;
             } else if c.to_string() == sep {
-                let _token = token.trim().to_string();
+                let _token = trim_cmd(&token);
                 if !_token.is_empty() {
                     result.push(_token);
                 }
@@ -128,7 +144,7 @@ pub fn line_to_cmds(line: &str) -> Vec<String> {
         }
         if c == ';' {
             if sep.is_empty() {
-                let _token = token.trim().to_string();
+                let _token = trim_cmd(&token);
                 if !_token.is_empty() {
                     result.push(_token);
                 }
@@ -143,7 +159,7 @@ pub fn line_to_cmds(line: &str) -> Vec<String> {
         token.push(c);
     }
     if !token.is_empty() {
-        result.push(token.trim().to_string());
+        result.push(trim_cmd(&token));
     }
     result
 }
